@@ -782,7 +782,7 @@ func c07forall(c *Ctx, sr *schedRoles, fn *ssa.Function, what string) {
 					afterLoop = true
 				}
 			}
-			if !afterLoop || loop[b] {
+			if (!afterLoop || loop[b]) && !(!loop[b] && p.emptyGuarded(b)) {
 				problems = append(problems, fmt.Sprintf("returns true at %s before every element was examined", p.InstrPos(ret)))
 			}
 		} else {
